@@ -1036,6 +1036,15 @@ package erpc
 //@   ensures[rejected-connection-closed-as-session] !statOK(result.1) && statCode(result.1) != CodeWrongConn ==> ghost.sessionCloses == old(ghost.sessionCloses) + 1
 //@   ensures[accepted-session-returned] statOK(result.1) ==> result.0 != nil
 
+// C01: a struct-controller handler works on a controller object taken from the
+// pool for this very invocation and given back afterwards (its embedded context
+// pointer is per-invocation state)
+//@ func makeCallHandlersFromStruct$2
+//@   property C01
+//@   flags libframe
+//@   requires ctx != nil && ctxShape(ctx)
+//@   ensures[own-controller-per-invocation] ghost.poolGets == old(ghost.poolGets) + 1 && ghost.poolPuts == old(ghost.poolPuts) + 1
+
 // ---- logging: output only (keeps verification conditions small) ------------------
 //@ trusted Printf
 //@   flags libframe
